@@ -57,6 +57,7 @@ class ReaderSummary(object):
         self.effects = []
         self.notes = []
         self.line = 0
+        self.child_bfs = []
 
 
 def new_instance(cls, magic, version):
@@ -271,6 +272,8 @@ def summarise_reader(T, cls, suffix, magic, version, save_ref=True):
             rs.returns.append((g, None))
             kinds.add("None")
     rs.kind = "|".join(sorted(kinds)) if kinds else "raises"
+    # children are read with the reader's own bytes_for_s argument (a container inside a code object inherits its setting)
+    rs.child_bfs = [show(e.args[0]) for k, e in flat if k == "robj"]
     # decode arguments of text results
     for k, e in flat:
         if k == "call" and str(e.args[0]).endswith(".decode"):
